@@ -29,27 +29,27 @@ func (m appOpts) Get(k string) interface{} { return m[k] }
 
 // Node is one replica: the real application on a simulated disk next to its own fake engine.
 type Node struct {
-	ID      int
-	W       *World
-	Key     *SecpKey
-	DB      *FaultDB
-	EL      *ELNode
-	App     *goatapp.App
-	Pool    *poolWrap
-	Env     *simrt.Env
-	Home    string
-	Alive   bool
-	Height  int64 // last committed height
-	AppHash []byte
-	CmtPool [][]byte // the consensus engine's mempool on this node (tx bytes that passed CheckTx)
-	Crashes int
-	Calls   int
-	DownFor int // block steps until automatic restart (0 = stays down until told)
+	ID             int
+	W              *World
+	Key            *SecpKey
+	DB             *FaultDB
+	EL             *ELNode
+	App            *goatapp.App
+	Pool           *poolWrap
+	Env            *simrt.Env
+	Home           string
+	Alive          bool
+	Height         int64 // last committed height
+	AppHash        []byte
+	CmtPool        [][]byte // the consensus engine's mempool on this node (tx bytes that passed CheckTx)
+	Crashes        int
+	Calls          int
+	DownFor        int // block steps until automatic restart (0 = stays down until told)
 	ShadowEndpoint string
-	LastErr string
+	LastErr        string
 
-	lastCalls   []EngineCall
-	lastFaulted bool
+	lastCalls         []EngineCall
+	lastFaulted       bool
 	lastEngineTrouble bool
 }
 
@@ -211,8 +211,8 @@ func (n *Node) ctx() sdk.Context {
 // mempool wrapper: seam points + junk injection
 
 type poolWrap struct {
-	inner  mempool.Mempool
-	Junk   []sdk.Tx // returned first by Select (arbitrary mempool content, C08)
+	inner   mempool.Mempool
+	Junk    []sdk.Tx // returned first by Select (arbitrary mempool content, C08)
 	Selects int
 	Removed int
 }
